@@ -322,6 +322,15 @@ fn run_d<T: Dur>(prop: DProp, tr: &DTrace, st: &mut Stats) -> Result<(), Viol> {
                             ));
                         }
                     }
+                    if n_after == 5 {
+                        let est = q.quantile();
+                        if est.to_bits() != post.q[2].to_bits() {
+                            return Err(Viol::new(
+                                "Quantile:estimate_not_middle_marker",
+                                format!("observation #5: quantile() = {:e} but the middle marker height is {:e}", est, post.q[2]),
+                            ));
+                        }
+                    }
                     if n_after > 5 {
                         st.oracle_evals += 1;
                         match p2model::check_step(&pre, xv, &post) {
